@@ -6,6 +6,9 @@
 // collective is logged per rank. A rank that returns while others wait inside a collective can never
 // be matched: that is reported as a hang (logically, without any timeout) and the waiting ranks are
 // unwound with an exception.
+// A world may be a sub-communicator of a larger "global" world (set_global): MPI_COMM_WORLD then names
+// a different communicator with a different size and different ranks than the one the harness passes
+// to the library, as after MPI_Comm_split; a collective issued on it is recorded as an error.
 #ifndef VERIF_SHIM_MPI_H
 #define VERIF_SHIM_MPI_H
 
@@ -15,6 +18,7 @@
 #include <cstring>
 #include <exception>
 #include <functional>
+#include <memory>
 #include <mutex>
 #include <string>
 #include <thread>
@@ -44,6 +48,18 @@ public:
     explicit World(int size) : size_(size), state_(size, RUNNABLE), args_(size), log_(size) {}
 
     int size() const { return size_; }
+
+    // make this world ranks [offset, offset + size) of a global world with `extra` further processes
+    void set_global(int extra, int offset) { gextra_ = extra; goffset_ = offset; }
+    World* global()
+    {
+        if (gextra_ <= 0) { return this; }
+        if (!view_) { view_.reset(new World(size_ + gextra_)); view_->owner_ = this; }
+        return view_.get();
+    }
+    World* owner() const { return owner_; }
+    int rank_offset() const { return owner_ ? owner_->goffset_ : 0; }
+    void note_error(std::string const& s) { std::unique_lock<std::mutex> lock(m_); errors_.push_back(s); }
 
     // schedule: order_[c] is the arrival order for the c-th scheduling round, reduce_order_[c] the
     // order in which the contributions of collective c are folded; tree_[c] selects pairwise reduction
@@ -83,6 +99,9 @@ private:
     bool hang_ = false, abort_ = false;
     std::string hang_text_;
     std::vector<std::string> errors_;
+    int gextra_ = 0, goffset_ = 0;
+    std::unique_ptr<World> view_;
+    World* owner_ = nullptr;
 };
 
 inline std::size_t type_size(int t)
@@ -263,7 +282,7 @@ typedef shim::World* MPI_Comm;
 typedef int MPI_Datatype;
 typedef int MPI_Op;
 
-#define MPI_COMM_WORLD (shim::World::current)
+#define MPI_COMM_WORLD (shim::World::current->global())
 #define MPI_IN_PLACE (reinterpret_cast<void*>(-1))
 #define MPI_SUM 1
 #define MPI_UNSIGNED (static_cast<MPI_Datatype>(shim::T_UNSIGNED))
@@ -274,13 +293,18 @@ typedef int MPI_Op;
 #define MPI_LONG_DOUBLE (static_cast<MPI_Datatype>(shim::T_LONG_DOUBLE))
 #define MPI_SUCCESS 0
 
-inline int MPI_Comm_rank(MPI_Comm, int* rank) { *rank = shim::World::rank; return MPI_SUCCESS; }
+inline int MPI_Comm_rank(MPI_Comm comm, int* rank) { *rank = shim::World::rank + comm->rank_offset(); return MPI_SUCCESS; }
 inline int MPI_Comm_size(MPI_Comm comm, int* size) { *size = comm->size(); return MPI_SUCCESS; }
 
 inline int MPI_Allreduce(void const* sendbuf, void* recvbuf, int count, MPI_Datatype type, MPI_Op, MPI_Comm comm)
 {
     // hep-mc only uses MPI_IN_PLACE
     if (sendbuf != MPI_IN_PLACE && sendbuf != recvbuf) { std::memcpy(recvbuf, sendbuf, shim::type_size(type) * static_cast<std::size_t>(count)); }
+    if (comm->owner())
+    {
+        comm->owner()->note_error("a collective was issued on MPI_COMM_WORLD although the caller passed a sub-communicator");
+        comm = comm->owner();
+    }
     comm->allreduce(recvbuf, count, type);
     return MPI_SUCCESS;
 }
